@@ -10,6 +10,7 @@ enabled threads by ascending id, then enabled daemon actions (feeder flushes) in
 from __future__ import annotations
 
 import collections
+import pickle
 import queue as _queue
 import sys
 import threading
@@ -217,6 +218,7 @@ class VQueue:
         self.name = name
         self.pipe = collections.deque()
         self.buffers = collections.OrderedDict()   # producer process name -> deque (unflushed)
+        self.dropped = []                          # items the feeder could not pickle (the real feeder logs and drops them)
 
     def put(self, item):
         # put() itself is local to the producer (it only appends to the producer's private buffer, which nobody
@@ -226,7 +228,7 @@ class VQueue:
         proc = s.current.proc
         if proc is None:
             s.point(("put", self.name))
-            self.pipe.append(item)
+            self._send(item)
         else:
             self.buffers.setdefault(proc.name, collections.deque()).append(item)
 
@@ -265,9 +267,20 @@ class VQueue:
         for pname, buf in self.buffers.items():
             if buf:
                 def act(buf=buf):
-                    self.pipe.append(buf.popleft())
+                    self._send(buf.popleft())
                 out.append((("flush", self.name, pname), act))
         return out
+
+    def _send(self, item):
+        """what multiprocessing.Queue's feeder thread does with one buffered object: pickle it and write the bytes to the
+        pipe; an object that cannot be pickled is reported on stderr and DROPPED (Queue._feed catches the exception and
+        goes on). The reader gets a copy, never the producer's object."""
+        try:
+            data = pickle.dumps(item)
+        except Exception as e:  # noqa
+            self.dropped.append((_item_id(item), repr(e)[:120]))
+            return
+        self.pipe.append(pickle.loads(data))
 
     def unflushed(self, pname):
         return bool(self.buffers.get(pname))
